@@ -1,11 +1,52 @@
-HOOK_COMMITS = ["c2b1eb3"]
+HOOK_COMMITS = ["c2b1eb3", "037c496"]
 
 NOT_APPLICABLE = {
     "C01": "Determinism over call histories / hash seeds: a bounded model checker re-executing the same symbolic input is equal to itself by construction, so 'run twice and compare' is vacuous; the one seeded component (std HashMap RandomState in bpm()) needs the getrandom FFI, and hashbrown+SipHash with symbolic keys did not finish symbolic execution in 900 s (DESIGN.md §7).",
     "C20": "Concurrency: Kani/CBMC does not model Rust threads or OS schedules; Send/Sync are compile-time facts. The single-threaded value semantics of the `sync` wrappers is covered under C10 (DESIGN.md §7).",
 }
 
+BMC = "bounded model checking of the compiled Rust code (Kani 0.68 -> CBMC 6.11 -> CaDiCaL SAT), symbolic inputs, counterexamples replayed natively"
+TB = "Trusted: Kani/CBMC/CaDiCaL and Kani's std models, dev-profile semantics; harness reference models and the stubs listed in the evidence. "
+
 CLAIMS = {
+    "C02": {
+        "text": "Gradual difficulty vs. the played prefix, decided structurally: from an arbitrary cursor state (struct literal under the representation invariant of new() + p x next(); taiko: initial state + bounded history) one next()/nth(n) call with n any usize must process exactly the difficulty objects of the prefix step, once each and in order (skills replaced by recording stubs) and return exactly the one-shot integer counters of the prefix (max_combo, object/hold/slider/tick/fruit/droplet counts, computed with the real per-object counting code). N <= 4 objects of symbolic kind, mania with clock-rate and duration tables. Counterexamples are replayed through the public API against the real one-shot calculation with passed_objects(i). Numeric equality of star ratings is outside (transcendentals).",
+        "note": TB + "Skills are assumed deterministic functions of the processed object sequence. Known findings (mania hold combo under clock rates, taiko head handling) are re-derived by dedicated kf_* harnesses and listed in known_findings.json.",
+        "technique": BMC + "; state-level inductive step",
+    },
+    "C05": {
+        "text": "Panic freedom for the units encoded for the other properties, re-run under this id: all of Kani's overflow / index / unwrap / slice / unreachable / crate-assert checks are discharged for score-state generation of all four modes (every attribute shape <= 1e5..1e6, every u32 input <= 1e6), gradual next/nth/len from every invariant-satisfying state with N <= 3 and every n: usize, mania column helpers for every f32. The whole-pipeline statement (decode arbitrary text, time/memory budget, hangs) is not decidable with this technique and is outside the claim.",
+        "note": TB + "Debug-profile semantics only. Only panic-class and memory-safety checks are attributed here; the known taiko len() underflow is reported as a known finding.",
+    },
+    "C07": {
+        "text": "Decision tree of Beatmap::convert / convert_ref / convert_mut with fully symbolic (mode, is_convert, target, legacy mods bits) on object-free maps running the real taiko/catch/mania converters: the three entry points agree on Ok/Err and the error kind, Ok exactly for own mode or un-converted osu! maps, own-mode conversion is the (borrowed) identity, results are equal maps with mode == target and is_convert set exactly when a conversion ran; thorough tier adds the generic Performance::new/try_mode dispatch.",
+        "note": TB + "Maps with objects, lazer key mods / Random seeds, OsuPerformance::try_mode field mapping (harness exceeds 26 GB) and calculate_for_mode equality on converted maps are outside.",
+    },
+    "C11": {
+        "text": "Memory safety of the self-referential gradual structs, bounded: CBMC's pointer-validity / bounds / deallocated-object checks are discharged on every dereference through the lifetime-extended references of OsuGradualDifficulty (diff_objects -> osu_objects) and TaikoGradualDifficulty (Iter<'static>, created with the module's own extend_lifetime) for one next/nth(n) call from every cursor state, N <= 3, any n.",
+        "note": TB + "Bounded exploration of lifetimes, not of maps: no threads, no moves of the struct between calls (exceeded memory), no sliders with geometry, -Z uninit-checks unavailable. StrainsVec / point_split harnesses are listed in the evidence when present.",
+    },
+    "C12": {
+        "text": "generate_state of all four modes on attribute-backed builders with fully symbolic attribute shapes (<= 1e5 objects), every subset of provided hit results / combo / misses / slider parts (values <= 1e6, i.e. far beyond the object count), both priorities, lazer/stable, passed_objects: misses <= objects, provided values kept when a completion exists, results add up to the object count when the provided ones do not exceed it, combo <= achievable, idempotence, and a fresh builder fed the generated state reproduces it (calculate() = generate_state() + calculator). No-accuracy paths and mania's loop-free accuracy arms at full range; accuracy paths on small shapes with the accuracy taken from a table.",
+        "note": TB + "Legacy-bit mods only (no lazer Classic mod); accuracies between table entries and larger shapes on the accuracy path are outside. Two genuine defects found here were repaired (fix: commits, see known_findings.json 'fixed').",
+    },
+    "C13": {
+        "text": "Closest-achievable accuracy: with only accuracy (+ optional misses) given, the generated state is compared against a fully symbolic competitor distribution over the same objects — the solver searches for a better distribution — for every shape within the small bounds stated per harness and every accuracy of the table slice, both priorities, lazer and stable origins.",
+        "note": TB + "Tolerance 1e-9 forgives float ties only. Outside: accuracies between table points, larger shapes, mania's four-loop search arm where it does not fit.",
+    },
+    "C14": {
+        "text": "Counting: catch ObjectCountBuilder one-shot counts == sum of the first `take` gradual deltas for every event sequence of length <= 4 (<= 3 fruits/droplets) and every take, monotone in take, n above the total == unlimited; gradual increments of all four modes add exactly each object's contribution (osu incl. hand-built sliders with nested objects: circles + sliders + spinners == objects passed); is_convert flag set exactly by conversions (C07 harness).",
+        "note": TB + "The osu! one-shot counting inside convert_objects did not fit and is outside; real slider / juice-stream nested object generation is outside.",
+    },
+    "C15": {
+        "text": "Iterator protocol of the four gradual difficulty calculators by a state-level inductive step: from every cursor state p <= N (N <= 3 quick, 4 thorough; symbolic object kinds) len() == size_hint() == N - p; next()/nth(n) for any n: usize returns Some iff p + n < N, then identifies value p + n + 1, processes objects p..=p+n once each in order and leaves the cursor at p+n+1; otherwise every later call is None without panic. One step from an arbitrary invariant-satisfying state covers call histories of any length.",
+        "note": TB + "The std adaptors are trusted (defined through next/nth). Known findings (nth past the end returns Some(last) in all modes; taiko short maps and non-hit head) are re-derived by kf_* harnesses on every run; gradual performance nth/last is covered under C03 when present.",
+        "technique": BMC + "; state-level inductive step",
+    },
+    "C19": {
+        "text": "Key-count and column mechanisms of the mania converter: target_columns is the value of an active key mod or in {4,5,6,7} for every cs/od on the 0.1 grid, every legacy mods word and maps of 0/5(/8) objects of symbolic kind; column(column_to_pos(c,K),K) == c for K <= 10 (18); ManiaObject::column(x,K) < K and get_column (incl. the 8K special lane) for every f32 x; ContainedColumns bit set. Object-free conversions: C07 harnesses.",
+        "note": TB + "The conversions on maps with objects (slider -> drum-roll splice, pattern generation) have float-driven trip counts and slider geometry and are outside.",
+    },
     "C18": {
         "text": "Bounded model checking of the real setter code: for each of the four Performance variants and each mode-specific builder, two setters chosen symbolically with fully symbolic arguments (all u32, all f64 bit patterns for clock rate, all non-NaN f32, bool) are shown equivalent to difficulty(Difficulty::new().<same setters>), independent setters commute, documented-irrelevant setters are no-ops, stored values are inside the documented clamps, and Difficulty -> inspect -> into_difficulty is the identity for every combination of set/unset fields. The solver decides all argument values at once; unit tests only sample them.",
         "note": "Trusted: Kani/CBMC/CaDiCaL, dev-profile semantics. Builders are attribute-backed; comparison is field-by-field over every builder field except the map/attributes slot. Bound: sequences of two setters; legacy-bit mods only. Outside: that a stored-but-ignored value leaves float results untouched.",
